@@ -61,6 +61,9 @@ func (L *Layout) CellSort(t types.Type) string {
 	if isOpaque(t) {
 		return "Int"
 	}
+	if n, ok := t.(*types.Named); ok && n.Obj().Name() == "ghostint" {
+		return "GInt"
+	}
 	switch u := t.Underlying().(type) {
 	case *types.Basic:
 		switch {
@@ -241,7 +244,7 @@ func (L *Layout) ranges(t types.Type, base int64, out *[]CellRange) {
 // zero value term of a cell sort
 func (L *Layout) Zero(sort string) string {
 	switch sort {
-	case "Int":
+	case "Int", "GInt":
 		return "0"
 	case "Bool":
 		return "false"
